@@ -588,6 +588,10 @@ func runC03(p *P, r *R) {
 	c03ObjectSize(p, r)
 	// R03.9 slots are pairwise disjoint only if every descriptor's payload window is exactly its slot (shared with C01 R01.13)
 	borrow(p, r, "C01", runC01, map[string]string{"R01.13": "R03.9"}, nil)
+	// R03.10 the server maps what *this* client announced: a failed establishment releases its mappings and its entry in
+	// the process-wide, path-keyed buffer-manager table, otherwise the next client under the same path is served the dead
+	// client's memory and layout (shared with C12 R12.2)
+	borrow(p, r, "C12", runC12, map[string]string{"R12.2": "R03.10"}, func(o Ob) bool { return constructHas(o, "newSession:", "initMemManager:") })
 }
 
 // c03ObjectSize (R03.8): the mapping side derives the geometry from the size of the backing object (queue split point
